@@ -127,12 +127,14 @@ def _rel_of_module(mp):
         if os.path.exists(os.path.join(core.REPO, "src", cand)):
             return cand
     return None
+REFLECT_FAIL_RX = re.compile(r"(with mode exec|not allowed in pure context|cannot call function .* with mode exec|in spec-mode|spec mode).*at <generated>|cannot call function .* with mode exec")
 AUTO_RX = re.compile(r"(?:cannot find (?:function|value|type|struct, variant or union type) `(\w+)` in this scope|variable `([A-Z][A-Z0-9_]+)` is not bound in all patterns) at src/([\w/\.]+):")
 
 
 def run_unit(name, prop, canary=False, mutate=None, suffix=""):
     """Assemble + verify; helpers the extracted text references but the unit does not list are
     pulled in automatically (at most 4 rounds)."""
+    reflect_retry = False
     for _ in range(5):
         snap = {k: set(v) for k, v in core.AUTO.items()}
         snap_inl = {k: set(v) for k, v in core.INLINE.items()}
@@ -156,6 +158,20 @@ def run_unit(name, prop, canary=False, mutate=None, suffix=""):
                 if nm not in snap.get(m.group(3), set()):
                     new = True
                 st.add(nm)
+        if not new and any(REFLECT_FAIL_RX.search(msg) for msg in out["undecided"]):
+            # a pure-looking free helper whose body calls std functions that have no spec-mode
+            # counterpart cannot get a reflection contract: inline it at its call sites instead (E12)
+            for rel, names in list(core.AUTO.items()):
+                src = core.Src.get(rel)
+                fns = {nm for nm in names if any(it.get("name") == nm and it["kind"] == "fn" for it in src._walk(src.index["items"]))}
+                if fns - core.INLINE.get(rel, set()):
+                    core.INLINE.setdefault(rel, set()).update(fns)
+                    core.AUTO[rel] = set(names) - fns
+                    new = True
+            if not new and not reflect_retry:
+                # AUTO / INLINE are shared by the units run in parallel: another unit's run may have
+                # moved the helper already, after this run had been assembled
+                reflect_retry = new = True
         if not new:
             return out
     return out
